@@ -31,6 +31,16 @@ func runC02(c *core.Ctx) {
 	c.Doc("names-arity", 16, "len(attr) >= N at every attr[0:N]")
 	c.Doc("lookup-loud", 3, "ForName/ForType panic when nothing matches; ForNameMaybe reports absence")
 	c.Doc("reflector-dyn", 2, "Putt/Gett dereference only under a successful s.(*S); failure panics without a store")
+	// "reads and writes stay inside that field": the address mechanism, shared with C01
+	c.Doc("addr-term", 4, "every unsafe dereference is base + L.Offset + L.RootOffs typed *A")
+	c.Doc("addr-agree", 1, "the four accessor methods use the same address term")
+	c.Doc("put-effect", 2, "Put/Putt: exactly one store, of a, through that pointer; container returned unchanged")
+	c.Doc("get-effect", 2, "Get/Gett: no store; returns the loaded value")
+	c.Doc("offs-writers", 1, "RootOffs / StructField are written only by the unfolding function's literals")
+	c.Doc("offs-term", 3, "RootOffs := offset parameter; StructField := cat.Field(i); recursion passes offset + cat.Field(i).Offset; root call passes 0")
+	if lensAccessorRules(c) != nil {
+		offsRules(c)
+	}
 
 	nt := lensType(c)
 	if nt == nil {
